@@ -225,7 +225,7 @@ def magic_cases() -> t.List[t.Dict[str, t.Any]]:
     """Every str/bytes field of every message kind set to every value of a list of values that code tends to
     special-case ('*', '', NUL, 'dn', known OIDs, attribute names with options, normalisation-sensitive text ...)."""
     out = []
-    text_vals = [v.decode("latin-1") for v in gens.MAGIC_OCTETS] + gens.ATTRIBUTE_NAMES + gens.NORMALISATION_SENSITIVE + gens.known_oids() + [""]
+    text_vals = [v.decode("latin-1") for v in gens.MAGIC_OCTETS] + gens.ATTRIBUTE_NAMES + gens.NORMALISATION_SENSITIVE + gens.known_oids() + [""] + ["a" + c + "b" for c in gens.BOUNDARY_CHARS]
     byte_vals = list(gens.MAGIC_OCTETS) + [b"", "e\u0301".encode(), b"\xc3", b"1.3.6.1.4.1.1466.20036"]
     for tname, tmpl in _templates().items():
         for path in _leaf_paths(tmpl):
